@@ -26,6 +26,11 @@ func init() {
 func genMergeInventory(r *vk.RNG, n int, maxRecs int) []CSpec {
 	inv := make([]CSpec, n)
 	base := int64(1700000000) * 1e9
+	if r.Chance(1, 6) {
+		// logs that straddle a power-of-two boundary of the nanosecond count (2^48 ns is about 78 hours):
+		// timestamps are compared whole, not by some of their bits
+		base = int64(6040)<<48 - 2e9
+	}
 	nonMono := r.Chance(1, 4)
 	// one inventory in five: replicas that log the same lines at the same instants (records are then
 	// identical across containers, and a record may be repeated inside one container as well);
